@@ -47,6 +47,21 @@ def families(tier, seed, b):
                 r = B.opnd(("S", v))
                 B.add({"op": "call", "fn": fn, "args": [r], "tag": "main"})
                 progs.append(B.build())
+    # from_bits is public API: any secrets (not only 0/1), constants and booleans, also with checks off
+    for vals in ((0, 1), (1, 1), (3, 1), (2, 3), (-1, 2), (1, 0, 1), (3, 3, 1)):
+        for kinds in ("S", "SB", "mix"):
+            for mode in modes_full + ["g0ign"]:
+                B = gen.Builder("b%d/from_bits/%s/%s/%s" % (b, kinds, "_".join(map(str, vals)), mode), mode, None, {"op": "from_bits", "kinds": kinds})
+                refs = []
+                for k, v in enumerate(vals):
+                    if kinds == "SB":
+                        refs.append(B.opnd(("SB", v & 1)))
+                    elif kinds == "mix" and k % 2:
+                        refs.append({"c": v})
+                    else:
+                        refs.append(B.opnd(("S", v)))
+                B.add({"op": "call", "fn": "from_bits", "args": [{"l": refs}], "tag": "main"})
+                progs.append(B.build())
     # fixed point (resolution from cfg)
     fvals = [[n, 2] for n in range(-4, 5)]
     fp = [(x, y) for x in fvals for y in fvals]
